@@ -119,7 +119,8 @@ def run(ctx):
     # 2. behaviour generator + replay
     nrand = int(os.environ.get("VERIF_NRAND", prof["rand"][0 if ctx.quick() else 1]))
     g = ctx.tlc("XPathGen", "XPathGen.cfg", workers=12, timeout=3000, heap="12g",
-                consts={"Fams": set_lit(fams), "NRand": 0, "RandKind": '"%s"' % prof["rand_kind"]})
+                consts={"Fams": set_lit(fams), "NRand": 0, "RandKind": '"%s"' % prof["rand_kind"],
+                        "WsEach": (7 if ctx.quick() else 14) if prop == "C03" else 0})   # whitespace at each single boundary of expressions up to that many tokens
     # TLC-sampled deeper ASTs: one worker, so that VERIF_SEED reproduces the sample
     g2 = ctx.tlc("XPathGen", "XPathGen.cfg", workers=1, timeout=3000, heap="6g",
                  consts={"Fams": "{100}", "NRand": nrand, "RandKind": '"%s"' % prof["rand_kind"], "NChunks": 1},
